@@ -1,5 +1,5 @@
 """C05 -- arithmetic and hashing kernel is mathematically exact on every configuration (exploration)."""
-import json, random, collections, os, concurrent.futures as cf
+import collections, json, random, os, concurrent.futures as cf
 import vlib
 from vlib import Infra, log
 LEVEL = "exploration"
@@ -411,9 +411,42 @@ def hash_driver(rng, n):
 
 
 # ---------------------------------------------------------------------------------------------------
+def scratch_tour(chk, edges):
+    """one history per labelled transition of C05_Scratch.tla: ScrReset, shortest path from the initial state, the transition"""
+    def skey(x): return json.dumps(x, sort_keys=True, separators=(",", ":"))
+    succ = collections.defaultdict(list); seen = set()
+    for e in edges:
+        ks, kd = skey(e["src"]), skey(e["dst"])
+        ek = (ks, skey(e["label"]))
+        if ek in seen: continue
+        seen.add(ek); succ[ks].append((e["label"], kd))
+    init = skey({"live": 0})
+    parent = {init: None}; order = [init]; i = 0
+    while i < len(order):
+        s = order[i]; i += 1
+        for (lab, d) in succ[s]:
+            if d not in parent: parent[d] = (s, lab); order.append(d)
+    def prefix(s):
+        p = []
+        while parent[s] is not None:
+            ps, lab = parent[s]; p.append(lab); s = ps
+        return list(reversed(p))
+    def rec_of(lab):
+        return {"e": lab["a"], "in": lab["args"], "out": dict(lab["exp"], icb=0)}
+    recs = []; ntr = 0
+    for s in order:
+        pre = prefix(s)
+        for (lab, d) in succ[s]:
+            ntr += 1
+            recs.append({"e": "ScrReset", "in": {}, "out": {"ret": 1}})
+            recs += [rec_of(l) for l in pre + [lab]]
+    recs.append({"e": "ScrReset", "in": {}, "out": {"ret": 1}})
+    return recs, len(order), ntr
+
+
 def run(chk):
     quick = chk.tier == "quick"
-    chk.groups = ["kernel"]
+    chk.groups = ["kernel", "scratch"]
     chk.label_of = my_label
     vlib.harness = tolerant_harness
     variants = QUICK_VARIANTS if quick else THOROUGH_VARIANTS
@@ -426,7 +459,14 @@ def run(chk):
         jf = [ex.submit(chk.model, "C05_Field.tla", c, env={"GEN_OUT": "%s.%d" % (fpath, i)}, timeout=6000, workers=6, heap="4g") for i, c in enumerate(fcfgs)]
         js = ex.submit(chk.model, "C05_Sha.tla", "C05_sha.cfg" if quick else "C05_sha_thorough.cfg", env={"GEN_OUT": spath}, timeout=3000, workers=4, heap="3g")
         jg = ex.submit(chk.generate, MODULE, "C05_gen.cfg", "gen", timeout=6000, workers=8 if quick else 12, heap="6g")
-        jb.result(); [j.result() for j in jf]; js.result(); gen = jg.result()
+        jq = ex.submit(chk.model, "C05_Scratch.tla", "C05_scratch.cfg" if quick else "C05_scratch_thorough.cfg", env={"GEN_OUT": chk.out + "/scratch.ndjson"}, timeout=3000, workers=4, heap="3g")
+        jb.result(); [j.result() for j in jf]; js.result(); gen = jg.result(); jq.result()
+    # ---- part 6: scratch-space allocator history machine (C05_Scratch.tla) ----
+    qrecs, qst, qtr = scratch_tour(chk, vlib.read_ndjson(chk.out + "/scratch.ndjson"))
+    if qtr < 100: raise Infra("scratch machine emitted too few transitions (%d)" % qtr)
+    log("[C05] scratch allocator machine: %d states, %d labelled transitions -> %d allocator calls to replay" % (qst, qtr, len(qrecs)))
+    for v in [x for x in variants if x in ("std", "verify", "noasm")]:
+        chk.replay(qrecs, v, "scratch allocator transition tour", stateful="ScrReset")
     # ---- part 5: SHA stream transition tour ----
     stours, sst, str_ = sha_tours(chk, vlib.read_ndjson(spath), rng, 100 if quick else 1000)
     log("[C05] sha stream machine: %d states, %d transitions -> %d replay sequences" % (sst, str_, len(stours)))
@@ -515,7 +555,7 @@ def replay(chk, path):
     recs = vlib.read_ndjson(path)
     variant = recs[0].get("variant", "std") if recs and recs[0].get("e") == "Build" else "std"
     recs = [r for r in recs if r.get("e") != "Build"]
-    chk.groups = ["kernel"]; chk.label_of = my_label; vlib.harness = tolerant_harness
+    chk.groups = ["kernel", "scratch"]; chk.label_of = my_label; vlib.harness = tolerant_harness
     chk.build([variant])
     ev = chk.record(recs, variant)
     if ev: chk.validate(ev, MODULE, "C05_trace.cfg", "replay", variant)
